@@ -130,6 +130,7 @@ def build_harness(variant="asan", log=None):
         raise RuntimeError("harness build failed:\n" + msg)
     link = ["gcc"] + VARIANTS[variant] + [j[1] for j in jobs] + [ZSTD_LIB, "-lz", "-lm", "-lpthread",
             "-Wl,--wrap=malloc,--wrap=calloc,--wrap=realloc,--wrap=strdup",
+            "-Wl,--wrap=fclose,--wrap=mmap",
             "-Wl,--wrap=carquet_arena_alloc,--wrap=carquet_arena_calloc,--wrap=carquet_arena_alloc_aligned",
             "-Wl,--wrap=carquet_arena_strdup,--wrap=carquet_arena_strndup,--wrap=carquet_arena_memdup", "-o", exe]
     r = sh(link)
